@@ -51,6 +51,8 @@ def run(ctx):
     ctx.rule("G3", "provenance of missing_deps_from's argument in get_missing_deps: queue hashes chained with the heads parameter")
     ctx.rule("G5", "sibling agreement: ChangeQueue methods mutating `changes` mutate `hashes` and `incoming_actor_seqs` as well")
     ctx.rule("G4", "provenance of BatchApply::push's argument: pop_topo_sorted_ready only")
+    ctx.rule("G6", "no stale snapshot: a local set captured by a closure that prunes a ChangeQueue field (retain) is not extended afterwards")
+    ctx.rule("G7", "whole-document replacement (`*self = doc`) in Automerge is edge-dominated by a test that reads ChangeQueue::is_empty (held changes are not thrown away)")
     f = ctx.facts()
     # ---------------- G1
     b = cfg.body(f.fns[find(f, POP)])
@@ -205,3 +207,83 @@ def run(ctx):
         ctx.ob("G5", "%s|indexes updated with the queue" % norm_fn(p).split("::")[-1], not missing, r["sp"],
                "mutates %s" % sorted(flds) if not missing else "changes the queued changes but not %s: has_hash / has_actor_seq answer from a stale index" % sorted(missing))
     ctx.floor("ChangeQueue methods mutating `changes`", n5, 3)
+    # ---------------- G6: the set that decides what leaves `changes` is the set that decides what leaves the indexes
+    n6 = 0
+    for p, r in sorted(f.fns.items()):
+        if r["ckey"] != ("automerge", "lib") or r.get("container") != CQ or "{closure" in p:
+            continue
+        b = cfg.body(r)
+        prunes = []
+        for bi, t in b.calls():
+            fn = norm_fn(t.get("fn")) or ""
+            if fn.split("::")[-1] not in ("retain", "retain_mut", "extract_if", "drain_filter"):
+                continue
+            ro = b.operand_origin(t["args"][0])
+            if not ro or ro[0] != 1:
+                continue                                    # prunes a field of self
+            pl = t["args"][1].get("m") or t["args"][1].get("c")
+            d = b.single_def(pl["l"]) if pl else None
+            if not (d and d[1] != "t" and d[2]["rv"]["k"] == "Agg" and d[2]["rv"].get("ak") == "closure"):
+                continue
+            caps = set()
+            for o in d[2]["rv"]["o"]:
+                oo = b.operand_origin(o)
+                if oo and oo[0] > b.argc and not [x for x in oo[1] if x not in ("&", "*")]:
+                    caps.add(oo[0])
+            prunes.append((bi, t, caps))
+        for k, (bi, t, caps) in util.ordinal_keys(prunes, lambda it: "%s|prune of %s" % (norm_fn(p).split("::")[-1], "".join(b.operand_origin(it[1]["args"][0])[1]).replace("*", "").replace("&", "").strip("."))):
+            n6 += 1
+            late = []
+            for mb, mt in b.calls():
+                mfn = norm_fn(mt.get("fn")) or ""
+                if mfn.split("::")[-1] not in ("insert", "extend", "push", "push_back", "remove", "clear", "retain"):
+                    continue
+                mo = b.operand_origin(mt["args"][0]) if mt.get("args") else None
+                if mo and mo[0] in caps and not [x for x in mo[1] if x not in ("&", "*")] and mb != bi and b.can_reach(bi, mb):
+                    late.append(mt["sp"])
+            ctx.ob("G6", k, not late, t["sp"], "the filter set is final when it is used" if not late else
+                   "the set that decides this prune is still modified afterwards (%s): elements added later leave the other containers of the queue but not this one, so the queue's indexes disagree with its contents" % late[0])
+    ctx.floor("closure-driven prunes of ChangeQueue fields", n6, 1)
+    # ---------------- G7: replacing the whole document drops its queue
+    AM = "automerge::automerge::Automerge"
+    from .. import callgraph
+    cg = callgraph.get(f)
+    QEMPTY = CQ + "::is_empty"
+    reads_queue = {QEMPTY}
+    for _ in range(2):
+        for p, r in f.fns.items():
+            if r["ckey"] == ("automerge", "lib") and p not in reads_queue and any(norm_fn(c) in reads_queue for c in cg.out.get(p, ())):
+                if cfg.body(r).local_ty(0) == "bool":
+                    reads_queue.add(norm_fn(p))
+    n7 = 0
+    for p, r in sorted(f.fns.items()):
+        if r["ckey"] != ("automerge", "lib") or r.get("container") != AM or "{closure" in p:
+            continue
+        b = cfg.body(r)
+        if b.argc < 1 or not b.local_ty(1).startswith("&mut") or util.base_ty(b.local_ty(1)) != AM:
+            continue
+        for bi, blk in enumerate(b.blocks):
+            if blk.get("cleanup"):
+                continue
+            for st in blk["st"]:
+                if st["d"]["l"] == 1 and st["d"]["p"] == ["*"] and st["rv"]["k"] == "Use":
+                    n7 += 1
+                    ctx.analysed_fns.add(p)
+                    edges = []
+                    for sb, sw in b.switches():
+                        src = b.bool_operand_source(sw["op"])
+                        if src and src["kind"] == "call" and norm_fn(src["callee"]) in reads_queue:
+                            edges += true_edges(b, sb, sw, src["negated"])
+                    ok = bool(edges) and b.edges_dominate(edges, bi)
+                    ctx.ob("G7", "%s|*self replaced" % norm_fn(p).split("::")[-1], ok, st["sp"], "only when the queue is known to be empty" if ok else
+                           "the document (and with it the queue of held changes) is replaced without a test that reads ChangeQueue::is_empty: changes held back for missing dependencies are thrown away")
+    ctx.floor("whole-document replacements in Automerge methods", n7, 1)
+
+
+def true_edges(b, sb, sw, negated):
+    """edges of a bool switch taken when the (un-negated) source is true"""
+    want_nonzero = not negated
+    zero = [tb for v, tb in sw["targets"] if v == "0"]
+    if want_nonzero:
+        return [(sb, sw["otherwise"])]
+    return [(sb, zero[0])] if zero else []
